@@ -197,6 +197,19 @@ def noise(rng):
     return ''.join(rng.choice(alphabet) for _ in range(rng.randint(1, 60)))
 
 
+def used_job_program(text):
+    from bardolph.controller.script_job import ScriptJob
+    try:
+        job = ScriptJob()
+        job.load_string('hue 120 on all print 1')
+        if job.program is None:
+            return None                       # (not the situation looked for)
+        job.load_string(text)
+        return job.program
+    except BaseException:
+        return None                           # crashes are judged on the fresh job (NoCrash), not twice
+
+
 def compile_guarded(text):
     """ScriptJob.load_string in a thread: (job, accepted, raised, hung)."""
     from bardolph.controller.script_job import ScriptJob
@@ -230,15 +243,47 @@ def malformed(program):
     return out
 
 
-def one(world, text, rule):
+def clean_scripts(pop):
+    """Well-defined scripts over the population the run uses - every light-loop spelling with a non-empty list, the
+    variable used in the body, alone, nested, inside a routine and combined with a counted variable.  Every name has
+    a value before it is read and no operator meets a value of the wrong kind, so for these texts a VM stop of ANY
+    class (not only the 'internal' ones) is the compiler's or the VM's doing: clause CleanRuns."""
+    q = lambda n: '"%s"' % n
+    a, b = q(pop[0]['name']), q(pop[1]['name'])
+    g, loc = q(pop[0]['group']), q(pop[0]['location'])
+    heads = ['with x in %s and %s' % (a, b), 'with x in all', 'with x in group %s' % g, 'with x in location %s' % loc,
+             'with x in %s and group %s' % (a, g), 'in %s and %s as x' % (a, b), 'all as x', 'in group %s as x' % g,
+             'in location %s as x' % loc, 'in %s and group %s and location %s as x' % (b, g, loc)]
+    out = []
+    for h in heads:
+        out.append('repeat %s begin set x end' % h)
+        out.append('repeat %s begin print x on x end print x' % h)
+        out.append('define each begin\n  repeat %s begin println x off x end\nend\neach\neach' % h)
+        out.append('repeat %s begin repeat %s begin print x print y end end' % (h, h.replace('x', 'y')))
+        out.append('repeat 2 begin repeat %s begin on x end end' % h)
+    for h in ('all as x', 'in group %s as x' % g, 'in %s and %s as x' % (a, b)):
+        out.append('repeat %s with brt from 10 to 30 begin brightness brt set x end' % h)
+        out.append('repeat %s with c cycle begin hue c set x end' % h)
+    out.append('repeat group as gg begin on group gg repeat in group gg as x begin print x set x end end')
+    out.append('repeat location as ll begin off location ll repeat in location ll as x begin set x end end')
+    out.append('repeat group as gg with brt from 40 to 80 begin brightness brt set group gg end')
+    out.append('define f with n begin repeat with x in all begin if {n > 0} begin return x end end return "none" end print [f 1] print [f 0]')
+    return out
+
+
+def one(world, text, rule, clean=False):
     job, raised, hung = compile_guarded(text)
     rec = {'rule': rule, 'raised': raised, 'hung': bool(hung), 'accepted': False, 'lined_messages': 0, 'job_program_none': True,
-           'fault': '', 'run_raised': False, 'malformed': 0}
+           'fault': '', 'run_raised': False, 'malformed': 0, 'clean': bool(clean)}
     detail = ''
     if job is not None and not hung and not raised:
         program = job.program
         rec['accepted'] = program is not None
         rec['job_program_none'] = program is None
+        if program is None:
+            # "a rejected text yields no program that could run" also when the front end's job object held an accepted
+            # program before (the web server and `lsrun` re-use one ScriptJob): the same text offered to a used job
+            rec['job_program_none'] = used_job_program(text) is None
         errors = job.compile_errors or ''
         rec['lined_messages'] = len(LINED.findall(errors))
         detail = errors.strip()[:160]
@@ -290,11 +335,14 @@ def run(report, replay=None):
     for text in CORPUS:
         inputs.append(('corpus', '', text))
         inputs.append(('corpus', '', 'hue 5 set all\n' + text + '\non all'))
-    world = runner.World(gen_lang.gen_population(random.Random(5), 6, min_lights=4))
+    population = gen_lang.gen_population(random.Random(5), 6, min_lights=4)
+    for text in clean_scripts(population):
+        inputs.append(('clean', '', text))
+    world = runner.World(population)
     batch, meta = [], {}
     hangs = 0
     for cls, rule, text in inputs:
-        rec, detail = one(world, text, rule)
+        rec, detail = one(world, text, rule, clean=cls == 'clean')
         rec['id'] = len(batch)
         batch.append(rec)
         meta[rec['id']] = (cls, rule, text, detail)
@@ -338,7 +386,7 @@ def run(report, replay=None):
     report.coverage['evaluations'] = len(batch)
     report.coverage['distinct_nontrivial'] = len({m[2] for m in meta.values()})
     report.coverage['rule'] = 'one record per input text; distinct by text'
-    report.notes.update(accepted=accepted, classes={c: sum(1 for m in meta.values() if m[0] == c) for c in ('soup', 'mutant', 'rule', 'noise', 'valid', 'corpus')})
+    report.notes.update(accepted=accepted, classes={c: sum(1 for m in meta.values() if m[0] == c) for c in ('soup', 'mutant', 'rule', 'noise', 'valid', 'corpus', 'clean')})
     report.sample({'soup': meta[0][2], 'mutant': meta[1500 * scale][2][:200]})
     report.assumptions += ['internal VM faults are recognised by their message (stack underflow, missing routine, '
                            'unknown op-code, frame mismatch); type errors caused by a script\'s own values are not internal faults',
